@@ -559,17 +559,27 @@ def run(prog, rep, tier):
     r_tuple = ("list", (key, ("sub", val, ("const", 0)), ("sub", val, ("const", 1))))
     r_scalar = ("list", (key, val, ("const", 0)))
     r_scalar_f = ("list", (key, val, ("const", 0.0)))
+    ret = T(sp.ret)
+    comp = ret[2][0] if ret[0] == "ext" and ret[1] in ("numpy.array", "numpy.asarray") and ret[2] and isinstance(ret[2][0], tuple) and ret[2][0][:2] == ("comp", "list") else None
+    if comp is not None and not apps:
+        # np.array([row(t, p) for (t, p) in d.items()]): the element expression lists the row layouts (phi over the parameter forms)
+        def leaves(t_):
+            if isinstance(t_, tuple) and len(t_) == 4 and t_[0] == "phi":
+                return leaves(t_[2]) + leaves(t_[3])
+            return [t_]
+        for leaf in leaves(comp[2]):
+            rows += split_phi_row(leaf)
     rows = [r for i_, r in enumerate(rows) if r not in rows[:i_]]
     ok = len(rows) == 2 and r_tuple in rows and (r_scalar in rows or r_scalar_f in rows)
     rep.check("LAYOUT.producer", ok, fwhere(fp), "rows are [target, p0, p1] and [target, p, 0]: a scalar parameter means variance 0",
               "row layout is %s, expected [target, params[0], params[1]] and [target, params, 0]" % [fmt(r) for r in rows])
     loops = [li for li in Sp.loopinfo.values() if li["func"] == fp.qname]
-    ok = len(loops) == 1 and loops[0]["iter"] == ("method", ("param", "interventions_dict"), "items", (), ())
+    items_ = ("method", ("param", "interventions_dict"), "items", (), ())
+    ok = (len(loops) == 1 and loops[0]["iter"] == items_) or (comp is not None and not loops and len(comp[3]) == 1 and comp[3][0][1] == items_ and not comp[3][0][2])
     rep.check("LAYOUT.iter", ok, fwhere(fp), "one row per (target, parameters) item of the dict", "rows are not built from interventions_dict.items()")
     rs = [r for r in Sp.select("raise", qname=fp.qname) if r.exctype == "ValueError"]
     rep.check("LAYOUT.reject", len(rs) >= 1, fwhere(fp), "anything else raises ValueError", "malformed parameters are not rejected")
-    ret = T(sp.ret)
-    ok = ret[0] == "ext" and ret[1] in ("numpy.array", "numpy.asarray") and ret[2] and ret[2][0][0] == "after"
+    ok = ret[0] == "ext" and ret[1] in ("numpy.array", "numpy.asarray") and ret[2] and (ret[2][0][0] == "after" or comp is not None)
     rep.check("LAYOUT.array", ok, fwhere(fp), "rows are returned as one array (columns = fields)", "parsed rows are not returned as an array")
     # ---- RANGE (constructor)
     fc = need(prog, LG + "LGANM.__init__")
@@ -601,10 +611,13 @@ def run(prog, rep, tier):
             guard = any(pol is True and mentions(cond, ("ext", "isinstance", (pn, ("extref", "tuple")), ())) or
                         (pol is True and mentions(cond, ("cmp", "==", ("ext", "type", (pn,), ()), ("extref", "tuple")))) for cond, pol in c.path)
             ok = ok and guard
-            stored = [a for a in Sc.select("attrstore", qname=fc.qname) if a.attr == name and a.value == c.result]
+            def selects(v):
+                # the stored value is the draw itself, or a phi (guard clauses of a helper) one of whose branches is the draw
+                return v == c.result or (isinstance(v, tuple) and len(v) == 4 and v[0] == "phi" and (selects(v[2]) or selects(v[3])))
+            stored = [a for a in Sc.select("attrstore", qname=fc.qname) if a.attr == name and selects(a.value)]
             ok = ok and len(stored) == 1
             why = "low=%s high=%s size=%s generator=%s" % (fmt(slots.get("low", ())), fmt(slots.get("high", ())), fmt(slots.get("size", ())), fmt(c.recv))
-        rep.check("RANGE.uniform", ok, fwhere(fc, us[0].node if us else None), "self.%s <- rng.uniform(%s[0], %s[1], size=p) from default_rng(random_state)" % (name, name, name),
+        rep.check("RANGE.uniform", ok, fwhere(fc, us[0].node if us else None, construct="self.%s: %s" % (name, head(us[0].node)[:120] if us else "-")), "self.%s <- rng.uniform(%s[0], %s[1], size=p) from default_rng(random_state)" % (name, name, name),
                   "range sampling of %s deviates: %s" % (name, why))
     pattern_method(prog, rep, LG + "LGANM.sample", ["W"])
     # the noise means and variances are plain numbers: nothing may be decided by their values, not even by "is it zero"
